@@ -24,16 +24,28 @@ def unparse(node: ast.AST) -> str:
     return ast.unparse(node)
 
 
+NOOP_CALL_HEADS = {"logging", "logger", "log", "LOGGER", "warnings"}
+
+
+def is_noop_stmt(st: ast.stmt) -> bool:
+    """Docstrings / bare constants and pure diagnostics (logging.*, logger.*, warnings.warn) do not
+    take part in any rule."""
+    if isinstance(st, ast.Expr) and isinstance(st.value, ast.Constant):
+        return True
+    if isinstance(st, ast.Expr) and isinstance(st.value, ast.Call):
+        ch = attr_chain(st.value.func)
+        if ch and len(ch) >= 2 and ch[0] in NOOP_CALL_HEADS:
+            return True
+    return False
+
+
+def real_stmts(body: Sequence[ast.stmt]) -> List[ast.stmt]:
+    return [st for st in body if not is_noop_stmt(st)]
+
+
 def strip_doc(body: Sequence[ast.stmt]) -> List[ast.stmt]:
-    body = list(body)
-    if (
-        body
-        and isinstance(body[0], ast.Expr)
-        and isinstance(body[0].value, ast.Constant)
-        and isinstance(body[0].value.value, str)
-    ):
-        return body[1:]
-    return body
+    """Function body without docstring and without pure-diagnostic statements (top level)."""
+    return real_stmts(body)
 
 
 def attr_chain(node: ast.AST) -> Optional[Tuple[str, ...]]:
@@ -629,3 +641,56 @@ def norm_text(node: ast.AST, func: Optional[ast.AST] = None, limit: int = 240) -
     if text.endswith(": pass"):
         text = text[: -len(" pass")]
     return text[:limit]
+
+
+# --------------------------------------------------------------------------- local inlining
+
+
+class _SubstNames(ast.NodeTransformer):
+    def __init__(self, env: Dict[str, ast.AST]):
+        self.env = env
+
+    def visit_Name(self, node: ast.Name):
+        if isinstance(node.ctx, ast.Load) and node.id in self.env:
+            return copy.deepcopy(self.env[node.id])
+        return node
+
+
+def subst_names(node: ast.AST, env: Dict[str, ast.AST]) -> ast.AST:
+    return ast.fix_missing_locations(_SubstNames(env).visit(copy.deepcopy(node)))
+
+
+def flow_env(fi: FuncInfo, stop: Optional[ast.AST] = None, max_size: int = 400) -> Dict[str, ast.AST]:
+    """Values of simple locals at the point just before the top-level statement that contains
+    ``stop`` (or at the end of the body): straight-line, flow-sensitive substitution of
+    ``name = expr`` / ``a, b = x, y`` assignments.  Names assigned inside compound statements
+    are dropped (unknown)."""
+    env: Dict[str, ast.AST] = {}
+    for st in fi.body:
+        if stop is not None and any(sub is stop for sub in ast.walk(st)):
+            break
+        if isinstance(st, (ast.Assign, ast.AnnAssign)) and st.value is not None:
+            tgts = st.targets if isinstance(st, ast.Assign) else [st.target]
+            if len(tgts) == 1 and isinstance(tgts[0], ast.Name):
+                val = subst_names(st.value, env)
+                if len(ast.dump(val)) < max_size * 20:
+                    env[tgts[0].id] = val
+                else:
+                    env.pop(tgts[0].id, None)
+                continue
+            if len(tgts) == 1 and isinstance(tgts[0], ast.Tuple) and isinstance(st.value, ast.Tuple) and len(tgts[0].elts) == len(st.value.elts):
+                vals = [subst_names(v, env) for v in st.value.elts]
+                for t, v in zip(tgts[0].elts, vals):
+                    if isinstance(t, ast.Name):
+                        env[t.id] = v
+                continue
+        # anything else: forget the names it may rebind
+        for sub in ast.walk(st):
+            if isinstance(sub, ast.Name) and isinstance(sub.ctx, ast.Store):
+                env.pop(sub.id, None)
+    return env
+
+
+def inlined_text(fi: FuncInfo, node: ast.AST) -> str:
+    """``unparse`` of ``node`` with the function's simple locals (as of that statement) inlined."""
+    return unparse(subst_names(node, flow_env(fi, node)))
